@@ -33,6 +33,9 @@ def scenarios(ctx: Ctx, res: Result):
     for sc in gc.finish_only_backlog_family():
         res.count('finish_only_backlog_family')
         yield sc
+    for sc in gc.newer_first_family():
+        res.count('newer_first_family')
+        yield sc
     for sc in gc.repeated_failure_family():
         res.count('repeated_failure_family')
         yield sc
